@@ -648,9 +648,22 @@ class Engine:
             if p is not None:
                 if self.trackable(p):
                     # assigning a struct/pointer root forgets its sub-paths
+                    # a whole-record assignment copies the known cells of the source record
+                    copied = None
+                    if x.op == '=' and rv is TOP and rhs is not None:
+                        rs = rhs
+                        while rs is not None and rs.k == 'cast' and rs.args:
+                            rs = rs.args[0]
+                        rp = self.canon(E, rs) if rs is not None and rs.k in ('ref', 'mem', 'idx', 'un') else None
+                        if rp and rp != p:
+                            copied = {q[len(rp):]: v for q, v in E.store.items() if q.startswith(rp) and q[len(rp):len(rp) + 1] in ('.', '[')}
                     for q in [q for q in E.store if q != p and q.startswith(p) and q[len(p):len(p) + 1] in '.-[']:
                         del E.store[q]
                     E.set(p, rv)
+                    if copied:
+                        for suf, v in copied.items():
+                            if self.trackable(p + suf):
+                                E.set(p + suf, v)
                 self.hooks.on_assign(E, x, p, rv)
                 if '[*]' in p:
                     base = p.split('[*]')[0]
